@@ -94,6 +94,15 @@ func argStr(a []Val) string {
 var taintOrder = []string{"logic-on-untyped-literal", "precedence-unary-minus-power", "precedence-or-and", "precedence-equality-relational",
 	"pow-exponent-beyond-int64", "float-to-int-overflow", "sign-cast-saturation", "narrowing-cast-truncation", "narrow-overflow"}
 
+var staticTaint = map[string]bool{"logic-on-untyped-literal": true, "precedence-unary-minus-power": true, "precedence-or-and": true, "precedence-equality-relational": true}
+
+func predStr(v Val, trap string) string {
+	if trap != "" {
+		return "error " + trap
+	}
+	return v.String()
+}
+
 func pickTaint(c *ectx) string {
 	for _, t := range taintOrder {
 		if c.taints[t] {
@@ -129,6 +138,7 @@ func (w *worker) judge(b built, f Func, nodeKey string) {
 		t.Unspec += fs.Unspec
 		t.Traps += fs.Traps
 		t.Diverged += fs.Diverged
+		t.Known += fs.Known
 		w.st.mu.Unlock()
 	}()
 	w.eng.st.SetNodeKey(nodeKey)
@@ -187,6 +197,25 @@ func (w *worker) judge(b built, f Func, nodeKey string) {
 					fp = "call-panics:" + f.Family
 				} else if t != "" {
 					fp = "documented-semantics-not-implemented:" + t
+					// a known deviation explains the divergence only if the compiled code did
+					// exactly what the recorded deviation predicts
+					if !staticTaint[t] {
+						if pv, ptrap, ok := implCall(f, cur); ok {
+							match := false
+							switch {
+							case ptrap != "" && got.Err != "":
+								match = strings.Contains(got.Err, ptrap) || (ptrap == "host panic in pow" && strings.Contains(got.Err, "negative power"))
+							case ptrap == "" && got.Err == "":
+								match = got.V.Same(pv)
+							}
+							if match {
+								fs.Known++
+							} else {
+								fp = "wrong-result-beyond-known-deviation:" + f.Family + ":" + f.Params[0].T.String()
+								desc += fmt.Sprintf("; the recorded deviation (%s) predicts %s", t, predStr(pv, ptrap))
+							}
+						}
+					}
 				}
 				w.report(f, fp, desc, fmt.Sprintf("call %d of sequence, args (%s), taints %v", k+1, argStr(cur), c.order))
 				if stateful {
@@ -441,6 +470,7 @@ func main() {
 		tot.Unspec += f.Unspec
 		tot.Traps += f.Traps
 		tot.Diverged += f.Diverged
+		tot.Known += f.Known
 		fams[n] = fmt.Sprintf("programs=%d accepted=%d rejected=%d calls=%d judged=%d unspecified=%d runtime-errors=%d diverged=%d distinct-outcomes=%d",
 			f.Programs, f.Accepted, f.Rejected, f.Calls, f.Judged, f.Unspec, f.Traps, f.Diverged, st.outcomes[n])
 	}
@@ -463,6 +493,7 @@ func main() {
 	r.Set("calls_unspecified_by_docs", tot.Unspec)
 	r.Set("calls_expected_runtime_error", tot.Traps)
 	r.Set("calls_diverged", tot.Diverged)
+	r.Set("diverged_calls_matching_the_deviation_model", tot.Known)
 	r.Set("families", fams)
 	r.Set("rejections", st.rejects)
 	r.Set("nocrash_sources", ncBuilt)
